@@ -21,6 +21,11 @@ def mutations(s, alphabet, rng, limit):
     for i in range(len(s) + 1):
         for c in rng.sample(alphabet, 4):
             out.add(s[:i] + c + s[i:])
+    # characters OUTSIDE the alphabet: the other case of every letter, the look-alikes base58 / bech32 leave out, punctuation
+    for i in range(len(s)):
+        for c in {s[i].swapcase(), '0', 'O', 'I', 'l', 'b', 'i', 'o', '1', ' ', '+', '/'}:
+            if c != s[i] and c not in alphabet:
+                out.add(s[:i] + c + s[i + 1:])
     out.add(s.upper())
     out.add(s.lower())
     out.add(s[:len(s) // 2].upper() + s[len(s) // 2:])
@@ -115,6 +120,7 @@ def run(tier, seed, opens):
                     sp = spec_addr58(m)
                     check('addr_base58_to_pubkeyhash', addr_base58_to_pubkeyhash, m, sp, lambda r: r, pid_b58)
                     check('deserialize_address', deserialize_address, m, sp, lambda r: r['public_key_hash_bytes'], pid_b58)
+                    check('Address.parse', Address.parse, m, None if sp is None else (sp, m), lambda r: (r.hash_bytes, r.address), pid_b58)
         for hrp in sorted(hrps):
             for witver, ln in ((0, 20), (0, 32), (1, 32)):
                 s = b32.encode(hrp, witver, list(bytes(rng.getrandbits(8) for _ in range(ln))))
@@ -122,6 +128,10 @@ def run(tier, seed, opens):
                     sp = spec_bech(m)
                     check('addr_bech32_to_pubkeyhash', addr_bech32_to_pubkeyhash, m, sp, lambda r: r)
                     check('deserialize_address', deserialize_address, m, sp, lambda r: r['public_key_hash_bytes'])
+                    # the Address object: same payload, and re-encoding gives the identical string (whatever the witness version)
+                    # (an all-upper-case string is valid Bech32; Address.parse refuses it, which the property allows: not checked)
+                    if sp is None or m == m.lower():
+                        check('Address.parse', Address.parse, m, None if sp is None else (sp, m), lambda r: (r.hash_bytes, r.address))
         # every witness version 0..16 with the right AND the wrong checksum constant (BIP350: v0 <-> Bech32, v1..16 <-> Bech32m)
         for hrp in sorted(hrps)[:3]:
             for witver in range(17):
@@ -133,6 +143,7 @@ def run(tier, seed, opens):
                     sp = spec_bech(m)
                     check('addr_bech32_to_pubkeyhash', addr_bech32_to_pubkeyhash, m, sp, lambda r: r)
                     check('deserialize_address', deserialize_address, m, sp, lambda r: r['public_key_hash_bytes'])
+                    check('Address.parse', Address.parse, m, None if sp is None else (sp, m), lambda r: (r.hash_bytes, r.address))
         # WIF and extended keys (bitcoin + one other network)
         for net in ('bitcoin', 'litecoin'):
             k = Key(rng.randrange(1, 2 ** 255), network=net, compressed=rng.random() < 0.5)
@@ -163,7 +174,7 @@ def run(tier, seed, opens):
                   lambda r: int.from_bytes(r[0], 'big') if isinstance(r, tuple) else r, lambda s_, r: 'F-C11-bip38-outer-checksum')
     except Exception as e:
         failed.append({'input': {'entry_point': 'bip38_decrypt'}, 'observed': 'harness error %r' % e, 'confirmed': False, 'obligation': 'text-decoders#bounded'})
-    res = {'contract': 'text-decoders[bounded]', 'target': 'addr_base58_to_pubkeyhash, addr_bech32_to_pubkeyhash, deserialize_address, Key(wif), HDKey(extended)',
+    res = {'contract': 'text-decoders[bounded]', 'target': 'addr_base58_to_pubkeyhash, addr_bech32_to_pubkeyhash, deserialize_address, Address.parse, Key(wif), HDKey(extended)',
            'status': 'ok', 'bounded': 'every single-character substitution / insertion / deletion / transposition, case changes, leading-1 changes of '
            '%d sampled strings per kind and network (at most %d mutants per string)' % (n_samples, per_string),
            'paths': cases, 'obligations': [{'name': 'text-decoders#bounded-vs-reference-decoders', 'kind': 'bounded', 'paths': cases, 'discharged': ok,
